@@ -43,7 +43,7 @@ fn shape(n: usize, parent: &[u32], kind: &[u32]) -> Shape {
     s
 }
 
-pub const NSHAPES: u32 = 13;
+pub const NSHAPES: u32 = 14;
 
 pub fn shape_by_index(ix: u32) -> Shape {
     let mut s = shape_raw(ix);
@@ -77,6 +77,9 @@ fn shape_raw(ix: u32) -> Shape {
         10 => { let mut s = shape(10, &[0, 0, 1, 2, 3, 3, 2, 6, 6, 2, 1], &[0, 0, 1, 0, 0, 0, 0, 0, 0, 3, 0]); s.hdef[9] = 3; s }
         // 12: deep history owned by one region of a parallel state (the sibling region must not leak into the record)
         12 => { let mut s = shape(10, &[0, 0, 1, 2, 3, 3, 3, 2, 7, 7, 1], &[0, 0, 1, 0, 0, 0, 4, 0, 0, 0, 0]); s.hdef[6] = 4; s.init_content[6] = 706; s }
+        // 13: parallel whose first region holds a compound child with a nested final (a final two levels below the region does not
+        //     make the region final), second region with a direct final
+        13 => shape(10, &[0, 0, 1, 2, 3, 4, 4, 2, 7, 7, 1], &[0, 0, 1, 0, 0, 0, 2, 0, 0, 2, 0]),
         // 11: parallel nested in a compound region of a parallel, deep history at the outer compound
         _ => { let mut s = shape(11, &[0, 0, 1, 2, 3, 4, 4, 3, 2, 8, 2, 1], &[0, 0, 0, 1, 1, 0, 0, 0, 0, 0, 4, 0]); s.hdef[10] = 3; s }
     }
